@@ -1,7 +1,7 @@
 #!/usr/bin/env python3
 """Confirm a seeded change produced by an independent agent and file it under /verif/seeded/.
 
-  python3 tools/seedin.py C02 a "<demo command, run from the demo dir>" [--crates sophia_api,sophia_term]
+  python3 tools/seedin.py C02 a "<demo command, run from the demo dir>" [--crates sophia_api,sophia_term] [--root /tmp/seed2]
 
 Steps (all in the agent's scratch worktree /tmp/seed/Cxx, never in /repo):
   1. demo with the change -> must fail; change reverted -> must pass; change re-applied
@@ -22,9 +22,12 @@ def main():
     crates = None
     if "--crates" in sys.argv:
         crates = sys.argv[sys.argv.index("--crates") + 1].split(",")
-    wt = "/tmp/seed/%s" % prop
-    out = "/tmp/seed/%s-out" % prop
-    env = dict(os.environ, CARGO_TARGET_DIR="/tmp/seed/%s-target" % prop, CARGO_NET_OFFLINE="true")
+    root = "/tmp/seed"
+    if "--root" in sys.argv:
+        root = sys.argv[sys.argv.index("--root") + 1]
+    wt = "%s/%s" % (root, prop)
+    out = "%s/%s-out" % (root, prop)
+    env = dict(os.environ, CARGO_TARGET_DIR="%s/%s-target" % (root, prop), CARGO_NET_OFFLINE="true")
     patch = os.path.join(out, "patch.diff")
     meta = json.load(open(os.path.join(out, "meta.json")))
     demo = os.path.join(out, "demo")
